@@ -81,6 +81,16 @@ def main():
         fh.write("| mutant | checks | verdict | repo suite | detail |\n|---|---|---|---|---|\n")
         for r in rows:
             fh.write("| " + " | ".join(str(x).replace("|", "/") for x in r) + " |\n")
+    # machine-readable, merged over runs (latest verdict per mutant)
+    jp = os.path.join(VERIF, "mutants", "results.json")
+    db = json.load(open(jp)) if os.path.exists(jp) else {}
+    for r in rows:
+        note = ""
+        for n2, p2, m2 in collect([]):
+            if n2 == r[0]:
+                note = m2.get("note") or m2.get("summary") or ""
+        db[r[0]] = {"checks": r[1], "verdict": r[2], "detail": r[4], "note": note, "tier": a.tier}
+    json.dump(db, open(jp, "w"), indent=1, sort_keys=True)
     missed = [r for r in rows if r[2] != "CAUGHT"]
     print(f"{len(rows) - len(missed)}/{len(rows)} caught")
     return 0
